@@ -5,6 +5,7 @@ package main
 
 import (
 	"crypto/x509"
+	"crypto/x509/pkix"
 	"errors"
 	"fmt"
 	"math/big"
@@ -20,7 +21,6 @@ import (
 	"github.com/anishathalye/porcupine"
 
 	"github.com/gr33nbl00d/caddy-revocation-validator/core"
-	"github.com/gr33nbl00d/caddy-revocation-validator/crl/crlreader"
 	"github.com/gr33nbl00d/caddy-revocation-validator/crl/crlstore"
 
 	"verif/harness/lab/crlgen"
@@ -39,7 +39,7 @@ import (
 type faultFactory struct {
 	real       crlstore.Factory
 	failCreate atomic.Bool
-	failInsert atomic.Int64 // k > 0: the k-th insert into the next temporary store fails
+	ser        *faultSerializer
 	tempStores atomic.Int64
 }
 
@@ -50,27 +50,44 @@ func (f *faultFactory) CreateStore(id string, temp bool) (crlstore.CRLStore, err
 			return nil, errors.New("injected: creation of the temporary store failed")
 		}
 	}
-	s, err := f.real.CreateStore(id, temp)
-	if err != nil {
-		return s, err
-	}
-	if k := f.failInsert.Load(); temp && k > 0 {
-		return &faultStore{CRLStore: s, failAt: k}, nil
-	}
-	return s, nil
+	return f.real.CreateStore(id, temp)
 }
 
-type faultStore struct {
-	crlstore.CRLStore
-	n, failAt int64
+// faultSerializer makes the k-th insert into a staging store fail (once): the stores stay the
+// repository's own types, so a refresh that wrongly carries on can still swap its staged store in.
+type faultSerializer struct {
+	crlstore.Serializer
+	n      atomic.Int64
+	failAt atomic.Int64
 }
 
-func (s *faultStore) InsertRevokedCert(e *crlreader.CRLEntry) error {
-	s.n++
-	if s.n == s.failAt {
-		return errors.New("injected: insert into the temporary store failed")
+func (s *faultSerializer) SerializeRevokedCert(rc *pkix.RevokedCertificate) ([]byte, error) {
+	if k := s.failAt.Load(); k > 0 && s.n.Add(1) == k {
+		return nil, errors.New("injected: insert into the temporary store failed")
 	}
-	return s.CRLStore.InsertRevokedCert(e)
+	return s.Serializer.SerializeRevokedCert(rc)
+}
+
+func (s *faultSerializer) arm(k int64) {
+	s.n.Store(0)
+	s.failAt.Store(k)
+}
+
+// newFaultFactory rebuilds the repository's own factory with the fault serializer.
+func newFaultFactory(real crlstore.Factory) *faultFactory {
+	fs := &faultSerializer{}
+	switch f := real.(type) {
+	case crlstore.MapStoreFactory:
+		fs.Serializer = f.Serializer
+		f.Serializer = fs
+		return &faultFactory{real: f, ser: fs}
+	case crlstore.LevelDbStoreFactory:
+		fs.Serializer = f.Serializer
+		f.Serializer = fs
+		return &faultFactory{real: f, ser: fs}
+	}
+	fs.Serializer = crlstore.ASN1Serializer{}
+	return &faultFactory{real: real, ser: fs}
 }
 
 // ---- history model
@@ -265,7 +282,7 @@ func runHistory(run *report.Run, w *world.World, hs histSpec, scratch string, id
 	}
 	defer chk.Stop()
 	repo := chk.C.VerifRepository()
-	ff := &faultFactory{real: repo.Factory}
+	ff := newFaultFactory(repo.Factory)
 	repo.Factory = ff
 	// initial load of v0 (sequential)
 	if rev, err := chk.Ask(probes[2].chain); err != nil || !rev {
@@ -345,7 +362,7 @@ func runHistory(run *report.Run, w *world.World, hs histSpec, scratch string, id
 	for si, f := range hs.Steps {
 		target := si + 1
 		ff.failCreate.Store(false)
-		ff.failInsert.Store(0)
+		ff.ser.arm(0)
 		switch f {
 		case "ok":
 			w.CRL.Set(path, origin.Good(buildVersion(target, w.Int, w.Int)))
@@ -365,7 +382,7 @@ func runHistory(run *report.Run, w *world.World, hs histSpec, scratch string, id
 		case "insert-fails@1", "insert-fails@mid", "insert-fails@last":
 			w.CRL.Set(path, origin.Good(buildVersion(target, w.Int, w.Int)))
 			k := map[string]int64{"insert-fails@1": 1, "insert-fails@mid": nEntries / 2, "insert-fails@last": nEntries}[f]
-			ff.failInsert.Store(k)
+			ff.ser.arm(k)
 		case "refused":
 			// cannot change the URL of the CDP; a closed port is simulated by closing the listener path: use truncate of zero bytes + connection close
 			w.CRL.Set(path, origin.Truncate(buildVersion(target, w.Int, w.Int), 0))
@@ -406,7 +423,7 @@ func runHistory(run *report.Run, w *world.World, hs histSpec, scratch string, id
 	stop.Store(true)
 	wg.Wait()
 	ff.failCreate.Store(false)
-	ff.failInsert.Store(0)
+	ff.ser.arm(0)
 	// final sequential probes (quiescent): appended to the history
 	for _, p := range probes {
 		t0 := now()
